@@ -4056,12 +4056,14 @@ def check_every_symbol_watched(ck, R):
     (result.add / collect_transitive_dependencies), except the exits for a function without globals and for
     black-listed objects."""
     v = FA(ck, CH + ".HashRule._visit_dependency")
-    adds = v.nodes_all([c for (c, _el) in _set_additions(v, "result")] + v.calls("collect_transitive_dependencies"))
+    unit_ = _visit_unit(ck)
+    helpers_ = {u.fi.name: u for u in unit_[1:]}
+
     # exits that are allowed to add nothing: `if not hasattr(src_fn, '__globals__'): return`
-    def about_globals(if_):
+    def about_globals(fx, if_):
         """is the test of this `if` about the function having a globals table (spelt on the spot or through a local)?"""
-        ns_ = v.nodes(if_.test)
-        t = v.expand(if_.test, ns_[0]) if ns_ else if_.test
+        ns_ = fx.nodes(if_.test)
+        t = fx.expand(if_.test, ns_[0]) if ns_ else if_.test
         while isinstance(t, ast.UnaryOp) and isinstance(t.op, ast.Not):
             t = t.operand
 
@@ -4073,9 +4075,25 @@ def check_every_symbol_watched(ck, R):
             return True
         return isinstance(t, ast.Compare) and len(t.ops) == 1 and isinstance(t.ops[0], (ast.Is, ast.IsNot)) and A.is_none(t.comparators[0]) and globals_read(t.left)
 
-    allowed = [n.id for n in v.cfg.nodes if n.kind == "stmt" and isinstance(n.ast, ast.Return) and v.enclosing(n.ast, ast.If) is not None
-               and about_globals(v.enclosing(n.ast, ast.If))]
-    p = v.cfg.path(v.cfg.entry, v.cfg.exit, removed=set(adds) | set(allowed))
+    def silent_path(fx, res, depth=0):
+        """a way through `fx` (the visit, or a method of the class it was split into) from entry to normal exit on which no rule
+        is added to the result set `res`: neither directly, nor by a rule's own descent, nor by a part of the visit that itself
+        adds a rule on every way through it.  None when there is no such way."""
+        adds_ = fx.nodes_all([c for (c, _el) in _set_additions(fx, res)] + fx.calls("collect_transitive_dependencies"))
+        for c in fx.calls():
+            hx = helpers_.get(A.call_attr(c) or "")
+            rc = A.call_recv(c)
+            if hx is None or hx is fx or depth > 3 or not fx.nodes(c) or not (isinstance(rc, ast.Name) and rc.id in ("HashRule", "cls", "self")):
+                continue
+            ps = [p_ for p_ in hx.fi.params if not (p_ in ("self", "cls") and not hx.fi.is_static)]
+            hres = [p_ for i_, p_ in enumerate(ps) for a_ in [A.arg_or_kw(c, i_, p_)] if a_ is not None and fx.xnorm(a_, fx.nodes(c)[0]) == res]
+            if len(hres) == 1 and silent_path(hx, hres[0], depth + 1) is None:
+                adds_ = adds_ + fx.nodes(c)
+        allowed_ = [n.id for n in fx.cfg.nodes if n.kind == "stmt" and isinstance(n.ast, ast.Return) and fx.enclosing(n.ast, ast.If) is not None
+                    and about_globals(fx, fx.enclosing(n.ast, ast.If))]
+        return fx.cfg.path(fx.cfg.entry, fx.cfg.exit, removed=set(adds_) | set(allowed_))
+
+    p = silent_path(v, "result")
     ok = p is None
     ck.ob(R, v.key(None, "every-symbol-watched"), ok, "every exit adds a rule for the symbol" if ok else
           "_visit_dependency can finish without adding any rule for a symbol that resolves to an object no strategy matches (functools.partial, a class, "
